@@ -12,6 +12,8 @@ C12 determinism, C14 layout trivia, C16 imports, C03 totality as mutation base).
 """
 from hypothesis import strategies as st
 
+# every identifier WideGen chooses is letters + number (C15 renames them); type variables A, C and imported modules excepted
+USER_NAME = r"\b(?:[a-z]{2,6}|[A-Z][a-z])\d+\b"
 PRIM = ["Int", "Str", "Bool", "Float"]
 LIT = {"Int": ["1", "7", "42", "0"], "Str": ['"a"', '"bc"', '"x y"'], "Bool": ["True", "False"], "Float": ["1.5", "0.25", "2.0"]}
 
@@ -112,16 +114,16 @@ class W:
         v = self.value_of(members[self.i(0, len(members) - 1)])
         lines = ["def uv%d: %s := %s" % (n, u, v)]
         if self.chance(60):
-            lines.append("def uf%d(p: %s, q: %s) -> %s => p" % (n, u, u2, u))
+            lines.append("def uf%d(pp%d: %s, qq%d: %s) -> %s => pp%d" % (n, n, u, n, u2, u, n))
         if self.chance(50):
-            lines += ["class UC%d" % n, "    def fld: %s := %s" % (u2, self.value_of(members2[0])),
-                      "    def meth(self, p: %s) -> %s => p" % (u, u)]
+            lines += ["class UC%d" % n, "    def fld%d: %s := %s" % (n, u2, self.value_of(members2[0])),
+                      "    def meth%d(self, pp%d: %s) -> %s => pp%d" % (n, n, u, u, n)]
         return lines
 
     def s_nullable_union(self):
         n = self.uid()
         u, members = self.union_type(nullable_members=True)
-        lines = ["def nu%d(p: %s) => print(1)" % (n, u)]
+        lines = ["def nu%d(pp%d: %s) => print(1)" % (n, n, u)]
         if self.chance(50):
             lines.append("def nv%d: %s := %s" % (n, u, self.value_of(members[0])))
         return lines
@@ -131,17 +133,18 @@ class W:
         lines = ["def bl%d := [%s]" % (n, ", ".join(str(self.i(0, 20)) for _ in range(self.i(2, 5)))),
                  "def bf%d := %s" % (n, self.pick(["True", "False"]))]
         kind = self.pick(["list", "list", "set", "dict"])
-        conds = [self.cond("bx", "bf%d" % n) for _ in range(self.i(0, 2))]
-        elem = self.pick(["bx", "bx * 2", "bx + %d" % self.i(1, 5), "(bx, bx)", "if bx > 3 then bx else 0"])
+        bx = "bx%d" % n
+        conds = [self.cond(bx, "bf%d" % n) for _ in range(self.i(0, 2))]
+        elem = self.pick(["BX", "BX * 2", "BX + %d" % self.i(1, 5), "(BX, BX)", "if BX > 3 then BX else 0"]).replace("BX", bx)
         tail = (", " + ", ".join(conds)) if conds else ""
         if kind == "list":
-            lines.append("def br%d := [%s | bx in bl%d%s]" % (n, elem, n, tail))
+            lines.append("def br%d := [%s | %s in bl%d%s]" % (n, elem, bx, n, tail))
         elif kind == "set":
-            lines.append("def br%d := {%s | bx in bl%d%s}" % (n, elem, n, tail))
+            lines.append("def br%d := {%s | %s in bl%d%s}" % (n, elem, bx, n, tail))
         else:
-            lines.append("def br%d := {bx => %s | bx in bl%d%s}" % (n, elem, n, tail))
+            lines.append("def br%d := {%s => %s | %s in bl%d%s}" % (n, bx, elem, bx, n, tail))
         if self.chance(30):
-            lines.append("def bn%d := [[by + bz | by in bl%d] | bz in bl%d, %s]" % (n, n, n, self.cond("bz", None, 0)))
+            lines.append("def bn%d := [[by%d + bz%d | by%d in bl%d] | bz%d in bl%d, %s]" % (n, n, n, n, n, n, n, self.cond("bz%d" % n, None, 0)))
         return lines
 
     def s_dict_set(self):
@@ -167,12 +170,13 @@ class W:
         n = self.uid()
         t = self.pick(["Int", "Float"])
         fty = self.pick(["(%s) -> %s" % (t, t), "%s -> %s" % (t, t)])
-        body = self.pick(["z + %s" % self.lit(t), "z * z", "if z > %s then z else %s" % (self.lit(t), self.lit(t)), "z"])
-        lines = ["def hf%d(g: %s, y: %s) -> %s => g(y)" % (n, fty, t, t),
-                 "def hr%d := hf%d(\\z: %s => %s, %s)" % (n, n, t, body, self.lit(t))]
+        z = "zz%d" % n
+        body = self.pick(["Z + %s" % self.lit(t), "Z * Z", "if Z > %s then Z else %s" % (self.lit(t), self.lit(t)), "Z"]).replace("Z", z)
+        lines = ["def hf%d(gg%d: %s, yy%d: %s) -> %s => gg%d(yy%d)" % (n, n, fty, n, t, t, n, n),
+                 "def hr%d := hf%d(\\%s: %s => %s, %s)" % (n, n, z, t, body, self.lit(t))]
         if self.chance(40):
-            lines.append("def h2%d(g: (%s, %s) -> %s) -> %s => g(%s, %s)" % (n, t, t, t, t, self.lit(t), self.lit(t)))
-            lines.append("def hs%d := h2%d(\\a: %s, b: %s => a + b)" % (n, n, t, t))
+            lines.append("def hh%d(gg%d: (%s, %s) -> %s) -> %s => gg%d(%s, %s)" % (n, n, t, t, t, t, n, self.lit(t), self.lit(t)))
+            lines.append("def hs%d := hh%d(\\la%d: %s, lb%d: %s => la%d + lb%d)" % (n, n, n, t, n, t, n, n))
         return lines
 
     def s_tuples(self):
@@ -181,7 +185,7 @@ class W:
         lines = ["def tt%d: (%s, %s) := (%s, %s)" % (n, a, b, self.lit(a), self.lit(b)),
                  "def (ta%d, tb%d) := tt%d" % (n, n, n)]
         if self.chance(50):
-            lines.append("def tf%d(p: (%s, %s)) -> (%s, %s) => p" % (n, a, b, a, b))
+            lines.append("def tf%d(pp%d: (%s, %s)) -> (%s, %s) => pp%d" % (n, n, a, b, a, b, n))
             lines.append("def tr%d := tf%d(tt%d)" % (n, n, n))
         if self.chance(40):
             lines.append("for (tx%d, ty%d) in [(1, 2), (3, 4)] do print(tx%d + ty%d)" % (n, n, n, n))
@@ -199,27 +203,27 @@ class W:
     def s_interface(self):
         n = self.uid()
         t = self.simple_type()
-        return ["type If%d" % n, "    def need%d(self, p: %s) -> %s" % (n, t, t),
-                "class Im%d: If%d" % (n, n), "    def need%d(self, p: %s) -> %s => p" % (n, t, t)]
+        return ["type If%d" % n, "    def need%d(self, pp%d: %s) -> %s" % (n, n, t, t),
+                "class Im%d: If%d" % (n, n), "    def need%d(self, pp%d: %s) -> %s => pp%d" % (n, n, t, t, n)]
 
     def s_generic_header(self):
         n = self.uid()
-        return ["class Ga%d[A, C](def gfield: Str)" % n,
+        return ["class Ga%d[A, C](def gfield%d: Str)" % (n, n),
                 "class Gb%d[C, A]: Ga%d[A, C](%s)" % (n, n, self.lit("Str")),
-                "    def gother: Int := %s" % self.lit("Int")]
+                "    def gother%d: Int := %s" % (n, self.lit("Int"))]
 
     def s_vararg(self):
         n = self.uid()
         t = self.simple_type()
-        lines = ["def va%d(%svararg vs: %s) => print(%s)" % (n, ("first: Int, " if self.chance(50) else ""), t,
-                                                           self.lit("Int"))]
+        lines = ["def va%d(%svararg vs%d: %s) => print(%s)" % (n, ("first%d: Int, " % n if self.chance(50) else ""), n, t,
+                                                              self.lit("Int"))]
         if self.chance(40):
-            lines += ["class Vc%d" % n, "    def vm(self, vararg ms: %s) => print(%s)" % (t, self.lit("Int"))]
+            lines += ["class Vc%d" % n, "    def vm%d(self, vararg ms%d: %s) => print(%s)" % (n, n, t, self.lit("Int"))]
         return lines
 
     def s_pure_with(self):
         n = self.uid()
-        lines = ["def pure pf%d(x: Int) -> Int => x + %s" % (n, self.lit("Int")),
+        lines = ["def pure pf%d(xx%d: Int) -> Int => xx%d + %s" % (n, n, n, self.lit("Int")),
                  "def wr%d := %s" % (n, self.lit("Int"))]
         k = self.pick(["as", "as_typed", "plain"])
         if k == "as":
@@ -234,8 +238,8 @@ class W:
         n = self.uid()
         body = self.pick(["text", "two\n    lines", "with 'quotes' and # hash", "", "tab\there", "trailing newline\n"])
         lines = ["class Dc%d" % n, '    """ class doc %s """' % body.replace("\n    ", "\n    "),
-                 "    def dfield: Int := %s" % self.lit("Int"),
-                 "    def dm(self) -> Int =>", '        """ method doc """', "        self.dfield"]
+                 "    def dfield%d: Int := %s" % (n, self.lit("Int")),
+                 "    def dm%d(self) -> Int =>" % n, '        """ method doc """', "        self.dfield%d" % n]
         if self.chance(50):
             lines.append('def dstr%d := "multi\nline %d"' % (n, n))
         return lines
@@ -270,10 +274,10 @@ class W:
     def s_operators(self):
         n = self.uid()
         ops = self.draw(st.permutations(["+", "-", "*", "<", ">", "="]))[:self.i(1, 3)]
-        lines = ["class Op%d(def v: Int)" % n]
+        lines = ["class Op%d(def vv%d: Int)" % (n, n)]
         for op in ops:
             ret = "Bool" if op in "<>=" else "Int"
-            lines.append("    def %s(self, other: Int) -> %s => self.v %s other" % (op, ret, op))
+            lines.append("    def %s(self, oth%d: Int) -> %s => self.vv%d %s oth%d" % (op, n, ret, n, op, n))
         return lines
 
     def s_nullable(self):
@@ -281,7 +285,7 @@ class W:
         t = self.simple_type()
         return ["def nn%d: %s? := %s" % (n, t, self.pick(["None", self.lit(t)])),
                 "def nd%d: %s := nn%d ? %s" % (n, t, n, self.lit(t)),
-                "def nf%d(p: %s?) -> %s => p ? %s" % (n, t, t, self.lit(t))]
+                "def nf%d(pp%d: %s?) -> %s => pp%d ? %s" % (n, n, t, t, n, self.lit(t))]
 
     def s_fstrings(self):
         n = self.uid()
